@@ -16,6 +16,7 @@ import (
 	"sync/atomic"
 	"time"
 
+	"github.com/pion/ice/v4/internal/verifhook"
 	"github.com/pion/logging"
 	"github.com/pion/stun/v3"
 	"github.com/pion/transport/v4"
@@ -313,6 +314,8 @@ func (m *UDPMuxDefault) writeToUDPAddrPort(buf []byte, rAddr netip.AddrPort) (n 
 		err = m.finishWrite(err)
 	}()
 
+	verifhook.Yield("mw.w_write")
+
 	return m.addrPortConn.WriteToAddrPort(buf, rAddr)
 }
 
@@ -352,6 +355,7 @@ func (m *UDPMuxDefault) writeToContext(ctx context.Context, buf []byte, rAddr ne
 		}()
 	}
 
+	verifhook.Yield("mw.w_write")
 	n, err = m.params.UDPConn.WriteTo(buf, rAddr)
 	if err != nil {
 		if ctxErr := ctx.Err(); ctxErr != nil {
@@ -364,17 +368,20 @@ func (m *UDPMuxDefault) writeToContext(ctx context.Context, buf []byte, rAddr ne
 
 func (m *UDPMuxDefault) abortWrite() error {
 	for {
+		verifhook.Yield("mw.a_load")
 		state := m.writeState.Load()
 		if state&udpMuxWriteBlockedBit != 0 || state&udpMuxWriteCountMask == 0 {
 			return nil
 		}
 
+		verifhook.Yield("mw.a_cas")
 		if !m.writeState.CompareAndSwap(state, state|udpMuxWriteBlockedBit) {
 			continue
 		}
 
 		// The deadline applies to the shared UDPConn, so blocked stays set
 		// until the final in-flight writer clears the deadline in finishWrite.
+		verifhook.Yield("mw.a_arm")
 		if err := m.params.UDPConn.SetWriteDeadline(time.Now()); err != nil {
 			m.clearWriteAbortState()
 
@@ -393,6 +400,7 @@ func (m *UDPMuxDefault) startWriteContext(ctx context.Context) error {
 			return err
 		}
 
+		verifhook.Yield("mw.w_load")
 		state := m.writeState.Load()
 		if state&udpMuxWriteBlockedBit != 0 {
 			runtime.Gosched()
@@ -400,6 +408,7 @@ func (m *UDPMuxDefault) startWriteContext(ctx context.Context) error {
 			continue
 		}
 
+		verifhook.Yield("mw.w_cas")
 		if m.writeState.CompareAndSwap(state, state+1) {
 			return nil
 		}
@@ -408,6 +417,7 @@ func (m *UDPMuxDefault) startWriteContext(ctx context.Context) error {
 
 func (m *UDPMuxDefault) finishWrite(writeErr error) error {
 	for {
+		verifhook.Yield("mw.f_load")
 		state := m.writeState.Load()
 		count := state & udpMuxWriteCountMask
 		if count == 0 {
@@ -415,6 +425,7 @@ func (m *UDPMuxDefault) finishWrite(writeErr error) error {
 		}
 
 		if state&udpMuxWriteBlockedBit != 0 && count == 1 {
+			verifhook.Yield("mw.f_caslast")
 			if !m.writeState.CompareAndSwap(state, state-1) {
 				continue
 			}
@@ -422,6 +433,7 @@ func (m *UDPMuxDefault) finishWrite(writeErr error) error {
 			return m.clearWriteDeadlineAfterAbort(writeErr)
 		}
 
+		verifhook.Yield("mw.f_cas")
 		if m.writeState.CompareAndSwap(state, state-1) {
 			return writeErr
 		}
@@ -430,10 +442,12 @@ func (m *UDPMuxDefault) finishWrite(writeErr error) error {
 
 func (m *UDPMuxDefault) setWriteDeadlineArmed() {
 	for {
+		verifhook.Yield("mw.s_load")
 		state := m.writeState.Load()
 		if state&udpMuxWriteBlockedBit == 0 || state&udpMuxWriteDeadlineBit != 0 {
 			return
 		}
+		verifhook.Yield("mw.s_cas")
 		if m.writeState.CompareAndSwap(state, state|udpMuxWriteDeadlineBit) {
 			return
 		}
@@ -442,6 +456,7 @@ func (m *UDPMuxDefault) setWriteDeadlineArmed() {
 
 func (m *UDPMuxDefault) clearWriteDeadlineAfterAbort(writeErr error) error {
 	for {
+		verifhook.Yield("mw.c_load")
 		state := m.writeState.Load()
 		if state&udpMuxWriteBlockedBit == 0 {
 			return writeErr
@@ -454,7 +469,9 @@ func (m *UDPMuxDefault) clearWriteDeadlineAfterAbort(writeErr error) error {
 			continue
 		}
 
+		verifhook.Yield("mw.c_clear")
 		clearErr := m.params.UDPConn.SetWriteDeadline(time.Time{})
+		verifhook.Yield("mw.c_store")
 		m.writeState.Store(0)
 		if writeErr == nil {
 			return clearErr
@@ -466,11 +483,13 @@ func (m *UDPMuxDefault) clearWriteDeadlineAfterAbort(writeErr error) error {
 
 func (m *UDPMuxDefault) clearWriteAbortState() {
 	for {
+		verifhook.Yield("mw.x_load")
 		state := m.writeState.Load()
 		newState := state &^ (udpMuxWriteBlockedBit | udpMuxWriteDeadlineBit)
 		if state == newState {
 			return
 		}
+		verifhook.Yield("mw.x_cas")
 		if m.writeState.CompareAndSwap(state, newState) {
 			return
 		}
